@@ -180,11 +180,13 @@ Definition sentinel_hit (cmax v tail : Z) : bool :=
 
 Inductive verdict := VOk | VAbort (alert : Z).
 
-(* 1100-1143 then 544-560; suite_ok abstracts CipherSuite.filterForVersion *)
+(* 1100-1143 then 544-560; suite_ok abstracts CipherSuite.filterForVersion.  Faithful to the code:
+   a version above maxVersion is still accepted when it is in settings.versions, which validate()
+   only trims of TLS 1.3 (a C03 finding; here it only matters for which alert is predicted). *)
 Definition client_sh_check (suite_ok : Z -> Z -> bool) (cmin cmax : Z) (c : chello) (s : shello) : verdict :=
   let v := sh_version s in
   if v <? cmin then VAbort ALERT_PROTOCOL_VERSION
-  else if v >? cmax then VAbort ALERT_PROTOCOL_VERSION
+  else if (v >? cmax) && negb (memZ v (server_versions cmax)) then VAbort ALERT_PROTOCOL_VERSION   (* 1121: `and real_version not in settings.versions` *)
   else if (v >? TLS12) && negb (sh_sid s =? ch_sid c) then VAbort ALERT_ILLEGAL_PARAMETER
   else if negb (memZ (sh_suite s) (ch_suites c) && suite_ok v (sh_suite s)) then VAbort ALERT_ILLEGAL_PARAMETER
   else if sentinel_hit cmax v (sh_tail s) then VAbort ALERT_ILLEGAL_PARAMETER
